@@ -14,7 +14,7 @@ import time
 
 VERIF = os.path.dirname(os.path.dirname(os.path.abspath(__file__)))
 REPO = os.environ.get("BPV_REPO", "/repo")
-WORK = os.path.join(VERIF, ".work")
+WORK = os.environ.get("BPV_WORK") or os.path.join(VERIF, ".work")
 DRIVER = os.path.join(VERIF, "bpfacts", "target", "debug", "bpfacts")
 
 CONFIGS = {
